@@ -1,5 +1,6 @@
 import KitProofs.Lemmas.CronSched
 import KitModel.CronSchedShape
+import KitProofs.Lemmas.CronSchedAccept
 /-!
 Property C05 — cron: each job starts once per activation, never early; Stop/Remove are clean.
 
@@ -88,6 +89,45 @@ theorem remove_refreshes_now_arm_keeps_it (S : Scheds) (s s' : State) :
     rfl
 
 end T1
+
+
+/-! ### soundness of the trace acceptor run by `kitdrv C05` -/
+
+/-- `accepts_sound`: every state the acceptor keeps after a trace is the end state (log erased)
+of an execution of the state machine from the initial state whose observable projection is that
+trace (`Exec`: internal labels unobserved, every API/job event is the label it stands for with
+its side conditions, every hook/harness assertion holds where it occurs). -/
+theorem accepts_sound (S : Scheds) (t0 : Nat) (tr : List Obs) (s : State)
+    (h : s ∈ acceptRun S [init t0] tr) : ∃ ls, Exec S (init t0) tr ls s := by
+  obtain ⟨s0, hs0, ls, he⟩ := acceptRun_sound tr _ s h
+  simp only [List.mem_singleton] at hs0
+  subst hs0
+  exact ⟨ls, he⟩
+
+/-- `accepted_trace_has_run`: if the driver accepts a trace, a real run of `step` (with the ghost
+log) from the initial state exists, it ends in a reachable state, and its observable projection
+is the trace. -/
+theorem accepted_trace_has_run (S : Scheds) (t0 : Nat) (tr : List Obs)
+    (h : accepts S t0 tr = true) :
+    ∃ (ls : List Label) (s' : State), runFrom S (init t0) ls = some s' ∧ Reach S s' ∧
+      Exec S (init t0) tr ls (strip s') := by
+  unfold accepts at h
+  cases hres : acceptRun S [init t0] tr with
+  | nil => simp [hres] at h
+  | cons s rest =>
+    obtain ⟨ls, he⟩ := accepts_sound S t0 tr s (by rw [hres]; exact List.mem_cons_self)
+    have hN := exec_runFromN he
+    have hinit : strip (init t0) = init t0 := rfl
+    rw [← hinit] at hN
+    obtain ⟨s', hrun, hstrip⟩ := runFromN_lift S ls (init t0) s hN
+    exact ⟨ls, s', hrun, reach_runFrom (Reach.init t0) ls hrun, hstrip ▸ he⟩
+
+example : accepts (fun _ t => t + 3) 10
+    [.add 0 1, .start, .armed true, .quiet, .advance 13, .woke 13, .jobBegin 1 13, .armed true,
+     .entries [(1, 16, 13)], .stop, .jobDone 1 13, .ctx 0 true, .finish] = true := by decide
+
+example : accepts (fun _ t => t + 3) 10
+    [.add 0 1, .start, .armed true, .advance 12, .jobBegin 1 12] = false := by decide
 
 /-! ### starts_chain -/
 
